@@ -893,8 +893,22 @@ fn main() {
     ctx.set("chain_zones", json!(chains.len()));
     ctx.set("signings", json!(chain_sigs.iter().map(|s| s.tag()).collect::<Vec<_>>()));
 
+    // debugging aid: VERIF_C10_RANGE=lo:hi restricts the run to a slice of the job list
+    if let Ok(r) = std::env::var("VERIF_C10_RANGE") {
+        let p: Vec<usize> = r.split(':').filter_map(|x| x.parse().ok()).collect();
+        if p.len() == 2 {
+            jobs = jobs[p[0].min(jobs.len())..p[1].min(jobs.len())].to_vec();
+            ctx.cap(&format!("VERIF_C10_RANGE={r}: only a slice of the job list was run"));
+            for (s, _) in &jobs {
+                eprintln!("job: {s}");
+            }
+        }
+    }
     let n = jobs.len() as u64;
     let stride = (n / 12).max(1);
+    // a chunk is 4 zones x <=4 signings x ~370 queries (< 1 s of work); the generous limit only
+    // guards against a starved worker on a loaded machine being mistaken for a hang
+    ctx.case_timeout_s.store(600, std::sync::atomic::Ordering::Relaxed);
     ctx.par_run_init(
         n,
         4,
